@@ -17,4 +17,5 @@ require (
 	go.uber.org/multierr v1.8.0 // indirect
 	go.uber.org/zap v1.24.0 // indirect
 	golang.org/x/text v0.6.0 // indirect
+	gopkg.in/yaml.v2 v2.4.0 // indirect
 )
